@@ -97,7 +97,7 @@ def r10_4(ctx, run, rule='R10.4'):
 
 
 def check(ctx, run):
-    run.rules_run = ['R10.1', 'R10.2', 'R10.3', 'R10.4', 'R10.5', 'R10.6', 'R10.7']
+    run.rules_run = ['R10.1', 'R10.2', 'R10.3', 'R10.4', 'R10.5', 'R10.6', 'R10.7', 'R10.8']
     _, cone = safety.panic_inventory(ctx, run, 'R10.1', ROOTS, floor=40)
     safety.unchecked_utf8(ctx, run, 'R10.2', cone, floor=1)
     r10_3(ctx, run)
@@ -108,4 +108,6 @@ def check(ctx, run):
     import boundaries
     _bf = lambda p_: p_.startswith(('de::', 'number::Number::decode', 'parser::'))
     boundaries.check(ctx, run, 'R10.6', [p_ for p_ in sorted(boundaries.load_baseline() or {}) if _bf(p_)], 'the decoder rejects input')
+    from rules import layout as _layout
+    _layout.r01_2(ctx, run, rule='R10.8/R01.2')
     return report.finish(run, level='other', explanation=EXPLANATION, assumptions=ASSUME)
